@@ -44,7 +44,7 @@ def _addr(line):
 
 class ScriptedPeer(object):
     def __init__(self, sock, script=None, lmtp=False, context=None, pipelining=True, auth=False,
-                 size=None, eightbit=True, name='mx', tag_replies=True, tls_immediately=False, eightbit_after_tls=None):
+                 size=None, eightbit=True, name='mx', tag_replies=True, tls_immediately=False, eightbit_after_tls=None, extra_exts=()):
         self.sock = sock
         self.script = dict(script or {})
         self.lmtp = lmtp
@@ -53,6 +53,7 @@ class ScriptedPeer(object):
         self.auth = auth
         self.size = size
         self.eightbit = eightbit
+        self.extra_exts = list(extra_exts)
         self.eightbit_after_tls = eightbit if eightbit_after_tls is None else eightbit_after_tls
         self.tls_immediately = tls_immediately
         self.buf = b''
